@@ -4,10 +4,12 @@
 OUT=$(mktemp -d /tmp/wiresim-soak.XXXXXX)
 cp /verif/known_findings.json "$OUT/" 2>/dev/null
 T=${3:-8}
+# private copy of the binary: other tools (mutants.py / seeded.py) rebuild /verif/target against a patched /repo
+cp /verif/target/release/wiresim "$OUT/wiresim"
 bad=0
 for seed in $(seq "${1:-2}" "${2:-5}"); do
   for p in C01 C02 C03 C06 C07 C08 C09 C10 C16; do
-    WIRESIM_VERIF_DIR="$OUT" /verif/target/release/wiresim run $p --seed $seed --threads $T --det 200 > "$OUT/log" 2>&1
+    WIRESIM_VERIF_DIR="$OUT" "$OUT/wiresim" run $p --seed $seed --threads $T --det 200 > "$OUT/log" 2>&1
     rc=$?
     echo "seed=$seed $p rc=$rc $(tail -1 "$OUT/log" | cut -c1-140)"
     if [ $rc -ne 0 ]; then bad=1; cat "$OUT/log" | head -20; cp -r "$OUT/replays" /tmp/soak-replays-$seed-$p 2>/dev/null; fi
